@@ -7,6 +7,7 @@ import (
 	"sync"
 
 	"github.com/fxamacker/cbor/v2"
+	"github.com/taurusgroup/multi-party-sig/internal/cborutil"
 	"github.com/taurusgroup/multi-party-sig/internal/round"
 	"github.com/taurusgroup/multi-party-sig/pkg/hash"
 	"github.com/taurusgroup/multi-party-sig/pkg/party"
@@ -449,7 +450,7 @@ func getRoundMessage(msg *Message, r round.Session) (round.Message, error) {
 	}
 
 	// unmarshal message
-	if err := cbor.Unmarshal(msg.Data, content); err != nil {
+	if err := cborutil.Unmarshal(msg.Data, content); err != nil {
 		return round.Message{}, fmt.Errorf("failed to unmarshal: %w", err)
 	}
 	roundMsg := round.Message{
